@@ -28,12 +28,14 @@ from modcorpus import *
 from widegen import WGen
 from c13_util import *
 from c13_families import *
+from c13_ext import *
 import c13_descr
 
 import threading
 _LOCK = threading.Lock()
 FAMILY_NOTES = []     # directed family values no build can encode (kept in the evidence: they are wasted cases)
 WATCHDOG_S = 8.0        # seconds without an answer line before a driver is killed
+MODDRV_C13 = os.path.join(HARNESS, "moddrv_c13.inc")      # the `walk` command (print / constraint check / compare / free)
 
 WIDE_FEATURES = ["enum", "real", "bits", "strings", "oid", "time", "default", "ext"]     # no SET, no recursion
 if os.environ.get("VERIF_C13_EXTRA_FEATURES"):      # experiments only (e.g. "set,recursion"); not part of the claimed check
@@ -280,7 +282,7 @@ def check_module(run, rng, tier, variants, mname, values, classify, layer, model
     built = [vi for vi, var in enumerate(variants) if var.mods[mname].get("exe")]
     if 0 not in built or len(built) < 2:
         run.count("%s_module_without_two_builds" % layer)
-        return
+        return None
     enc = encode_everywhere(run, variants, mname, values, "C13-" + layer)
     items, meta = [], []
     for j, (tn, der) in enumerate(values):
@@ -359,6 +361,7 @@ def check_module(run, rng, tier, variants, mname, values, classify, layer, model
             # every build agrees, but the value did not come back: the round trip itself is open (C01), not an option matter
             o = list(dgroups)[0] if dgroups else "-"
             run.count("%s_roundtrip_open_in_every_build(%s:%s)" % (layer, s, o.split()[0]))
+    return enc
 
 
 def leaf_contents(rng, tier):
@@ -541,7 +544,8 @@ def descriptor_tie(run, variants, names, texts, classify, skel_inc, lib, model):
             if diffs:
                 fid = classify(n, var, diffs)
                 if fid:
-                    run.known_finding(fid, line)
+                    for f1 in ([fid] if isinstance(fid, str) else fid):
+                        run.known_finding(f1, line)
                     continue
                 run.violation("oracle:descriptor-differs", {"what": "the type descriptors generated under %s differ from the baseline's in a field no representation option may change" % var.label(),
                                                             "module": texts[n], "command_line": line, "differences": diffs[:12],
@@ -599,6 +603,149 @@ def slots_tie(run, variants, mods, tabs, model):
                            "module": m["text"], "where": where, "build": var.label(), "model_command": l, "model": o[:2], "generated": got, "command_line": "descr %s %s" % (m["name"], " ".join(var.opts))})
 
 
+
+# ------------------------------------------------------------------ round 4: walkers and layouts (lib/c13_ext.py)
+
+def _ck_norm(field):
+    """<ret>:<hex message>: the message ends with the C source position of the generated checker, `(<dir>/<file>.c:<line>)`,
+    which legitimately depends on the options (line numbers, file names): removed before comparing"""
+    ret, _, hx = field.partition(":")
+    try:
+        msg = bytes.fromhex(hx).decode(errors="replace") if hx != "-" else "-"
+    except ValueError:
+        msg = hx
+    return ret + ":" + re.sub(r"\s*\([^()]*:\d+\)\s*$", "", msg)
+
+
+def walker_tie(run, variants, mname, values, layer):
+    """the generic walkers that are not codecs - asn_fprint, asn_check_constraints, compare_struct, the free walk (under
+    the sanitizers) - fetch members through the same member tables as the codecs: every build must print the same text,
+    give the same constraint verdict and the same comparison results for the same values (harness/moddrv_c13.inc `walk`)."""
+    text = variants[0].mods[mname]["text"]
+    built = [vi for vi, var in enumerate(variants) if var.mods[mname].get("exe")]
+    if 0 not in built or len(built) < 2 or not values:
+        return
+    bytype = {}
+    for tn, der in values:
+        bytype.setdefault(tn, []).append(der)
+    lines = []
+    for tn, ds in bytype.items():
+        for j, d in enumerate(ds):
+            lines.append("walk %s %s %s" % (tn, d, ds[(j + 1) % len(ds)]))
+    exits = {}
+
+    def one(vi):
+        m = variants[vi].mods[mname]
+        if not m.get("exe"):
+            return None
+        return run_mod_resume(run, m, lines, "C13-%s-walk-%s" % (layer, variants[vi].label()), exits)
+    res = _par(one, len(variants))
+    for li, line in enumerate(lines):
+        outs = {vi: r[li] for vi, r in enumerate(res) if r is not None}
+        run.case(line)
+        run.count("%s_walk" % layer)
+        # a -fno-constraints build has no checker (ck=NA..): its ck field is not compared; the rest of the line is
+        groups, ckgroups = {}, {}
+        for vi, o in outs.items():
+            groups.setdefault(re.sub(r" ck=\S+", "", o), []).append(vi)
+            mck = re.search(r" ck=(\S+)", o)
+            if mck and not mck.group(1).startswith("NA"):
+                ckgroups.setdefault(_ck_norm(mck.group(1)), []).append(vi)
+        if len(groups) > 1 or len(ckgroups) > 1:
+            run.violation("oracle:options-change-walker",
+                          {"what": "print / constraint check / compare / free of the same value give different results in builds of the same module under different representation options "
+                                   "(a member fetched through the wrong address: text, verdict, comparison or a sanitizer abort)",
+                           "module": text, "command_line": line, "outputs": {variants[vi].label(): o for vi, o in outs.items()}})
+            continue
+        o = list(outs.values())[0]
+        f = dict(x.split("=", 1) for x in o.split() if "=" in x)
+        if "cmp" not in f:
+            run.count("%s_walk_not_walkable_in_every_build(%s)" % (layer, o.split()[0] if o else "-"))
+            continue
+        c = f["cmp"].split(",")
+        if c[0] != "0":
+            run.count("%s_walk_self_compare_nonzero_in_every_build" % layer)      # C01's subject (all builds agree)
+        if len(c) == 3 and int(c[1]) != -int(c[2]):
+            run.count("%s_walk_compare_not_antisymmetric_in_every_build" % layer)
+    exit_status_oracle(run, variants, mname, exits, "C13-%s-walk" % layer)
+
+
+def layout_tie(run, variants, mods, tabs, model, encs, ext):
+    """coq/Rt/Layout.v + LayoutExt.v against the real code: for every build the LAYOUT (one pointer flag per member /
+    alternative / addition) is read off that build's dumped member tables; the extracted model builds the structure for
+    that layout (repr / ext_repr) and walks it through the flags (uper_c / oer_c / der_c, ext_*_c): the bytes must be the
+    ones that build emitted.  By the theorems the walk equals the representation-free model for EVERY layout, so a
+    difference means the C does not fetch through the flag somewhere (or the layout cannot hold the value at all)."""
+    lines, keys = [], []
+    seen = {}
+    nlay = {}
+    for m in mods:
+        if not m.get("exe") or m["name"] not in encs:
+            continue
+        enc, cs = encs[m["name"]]
+        if enc is None:
+            continue
+        names = [n for n, _ in m["defs"]]
+        for vi, var in enumerate(variants):
+            tab = tabs.get((vi, m["name"]))
+            if tab is None:
+                continue
+            lays = {}
+            for j, c in enumerate(cs):
+                tn = c["tn"]
+                if tn not in lays:
+                    ri = names.index(tn)
+                    lays[tn] = (ext_layout_of(tab, ri, c["x"]) if ext else layout_of(tab, ri, m["trees"][tn])) if ri < tab["roots"] else None
+                    if lays[tn] is None:
+                        run.violation("translator:layout", {"what": "the dumped member tables of a build do not have the shape of the model type", "module": m["text"], "type": tn, "build": var.label()}, no_input=True)
+                        continue
+                    nlay.setdefault((m["name"], tn), set()).add(lays[tn])
+                lay = lays[tn]
+                if lay is None:
+                    continue
+                if ext:
+                    # how many (value, build) pairs lie where a wrong fetch on the extension path shows: the selected
+                    # extension alternative / a present addition behind a pointer
+                    el = tab["d"][names.index(tn)]["elems"]
+                    nr = len(c["x"]["rtrees"])
+                    if c["x"]["kind"] == "choice":
+                        i = c["v"][1]
+                        run.count("ext_choice_value(%s alternative held %s)" % ("extension" if i >= nr else "root", "by pointer" if el[i]["flags"] & 1 else "inline"))
+                    else:
+                        npres = sum(1 for a in c["v"][1][nr:] if a[0] == "!")
+                        run.count("ext_seq_value(%s)" % ("no addition present" if not npres else "additions present, all pointers" if all(e["flags"] & 1 for e in el[nr:]) else "additions present, some inline"))
+                for s, cmd in (("der", "lay_xder" if ext else "lay_der"), ("uper", "lay_xuper 0" if ext else "lay_uper 0"), ("oer", "lay_xoer" if ext else "lay_oer")):
+                    if skips(var.opts, s) or vi not in enc[s][j]:
+                        continue
+                    if s == "uper" and c["uper"] != c["uperstd"]:
+                        continue        # C02's refuted region (see check_module)
+                    ml = "%s %s %s %s" % (cmd, c["ts"], lay, c["vs"])
+                    k = seen.get(ml)
+                    if k is None:
+                        k = seen[ml] = len(lines)
+                        lines.append(ml)
+                    keys.append((m, c, s, var, vi, k, enc[s][j][vi]))
+    if not lines:
+        return
+    rcm, mo, me = run_lines(model, lines, timeout=900)
+    if rcm != 0 or len(mo) != len(lines):
+        run.violation("correspondence:Layout", {"what": "model driver failed on the layout walks", "rc": rcm, "stderr": me[-800:]}, no_input=True)
+        return
+    for (m, c, s, var, vi, k, cout) in keys:
+        o = mo[k]
+        run.count("layout_walk_%s%s" % ("ext_" if ext else "", s))
+        exp = ("OK " + o) if o not in ("NONE", "NOREPR") and not o.startswith("EXN") else ("ENCFAIL" if o == "NONE" else o)
+        got = cout if not cout.startswith("ENCFAIL") else "ENCFAIL"
+        if got != exp:
+            run.case("%s @%s" % (lines[k][:300], var.label()))
+            run.violation("correspondence:Layout.%s%s" % ("x" if ext else "", s),
+                          {"what": "the walk of the structure through the ATF_POINTER flags of THIS build's member tables (coq/Rt/Layout%s.v) does not give the bytes this build emits" % ("Ext" if ext else ""),
+                           "module": m["text"], "type": c["tn"], "build": var.label(), "model_command": lines[k][:3000], "model": o, "c": cout,
+                           "command_line": "xcode %s der %s %s" % (c["tn"], c["der"], s)}, no_input=(o == "NOREPR"))
+    for (mn, tn), ls in nlay.items():
+        run.count("layout_types_with_%d_distinct_layouts" % len(ls))
+
+
 def _t(what):
     if os.environ.get("VERIF_C13_TIMING"):
         log("C13 t=%6.1f %s" % (time.time() - T0, what))
@@ -636,11 +783,12 @@ def main(tier):
         _t("variants built")
         # directed families: one per representation option (lib/c13_families.py)
         fam_model = model_family_modules()
-        fam_text = text_family_modules(rng, tier)
-        fmods = fam_model + fam_text
+        fam_ext = ext_family_modules()                                   # round 4: extensible types, ext-layer algebra
+        fam_text = text_family_modules(rng, tier) + nested_modules(tier) + [wide_ext_module()]
+        fmods = fam_model + fam_ext + fam_text
         fsets = (list(QUICK_SETS) + FAMILY_SETS) if quick else family_sets_thorough()
-        build_modules(fmods, tag="fopt0", opts=BASE)
-        fv = build_variants(fmods, fsets, jobs=4, prefix="fopt", select=relevant if quick else None)
+        build_modules(fmods, tag="fopt0", opts=BASE, moddrv_extra=MODDRV_C13)
+        fv = build_variants(fmods, fsets, jobs=4, prefix="fopt", select=relevant_ext if quick else None, moddrv_extra=MODDRV_C13)
     except BuildError as e:
         run.violation("build", {"what": str(e)[-2500:]}, no_input=True)
         return run.finish("proof", (nthm, ndis))
@@ -731,7 +879,9 @@ def main(tier):
     # ------------------------------------------------------------ directed families
     model = model_build()
     fcases = by_module(model_cases(model, [m for m in fam_model if m.get("exe")], rng, 3 if quick else 10, run_lines))
-    for m in fam_model:
+    fcases.update(by_module(ext_cases(model, [m for m in fam_ext if m.get("exe")], rng, 1 if quick else 4, run_lines)))
+    fencs = {}
+    for m in fam_model + fam_ext:
         if not m.get("exe"):
             continue
         cs = fcases.get(m["name"], [])
@@ -742,7 +892,8 @@ def main(tier):
 
         def fclassify(j, s, kind, detail):
             return None
-        check_module(run, rng, tier, fvariants, m["name"], values, fclassify, "family", model_bytes=mb, dec_limit=400 if quick else 1200)
+        fencs[m["name"]] = (check_module(run, rng, tier, fvariants, m["name"], values, fclassify, "family", model_bytes=mb, dec_limit=400 if quick else 1200), cs)
+        walker_tie(run, fvariants, m["name"], values, "family")
         if cs:
             run.sample({"family_module": m["name"], "type": cs[0]["ts"][:80], "value": cs[0]["vs"][:80], "der": cs[0]["der"][:80]})
     _t("family model done")
@@ -758,19 +909,45 @@ def main(tier):
                 return "C13-no-constraints-per-alphabet"
             return None
         check_module(run, rng, tier, fvariants, m["name"], values, tclassify, "family", dec_limit=400 if quick else 1200)
+        walker_tie(run, fvariants, m["name"], values, "family")
     _t("family text done")
     # ------------------------------------------------------------ descriptor tie (translator: harness/dumpdescr.c)
     lib, _libdir = build_skeleton_lib(True)
     _asn1c, skel_inc = build_asn1c()
 
+    all_texts = {m["name"]: m["text"] for m in mods + wmods + fmods}
+
+    def doubled_first_tag(d):
+        """the baseline's tag vector is the build's with its first tag written twice ([2, 2, 8] vs [2, 8])"""
+        try:
+            import ast
+            a, b = ast.literal_eval(d["a"]), ast.literal_eval(d["b"])
+        except Exception:
+            return False
+        return isinstance(a, list) and isinstance(b, list) and len(b) >= 1 and a == [b[0]] + b
+
     def dclassify(n, var, diffs):
-        if "-fno-constraints" in var.opts and c13_descr.only_char_map_differs(diffs):
-            return "C13-no-constraints-per-alphabet"
-        return None
+        """every difference must belong to a known finding whose option is in the build's option set; -> list of finding ids"""
+        ids = []
+        for d in diffs:
+            if "-fno-constraints" in var.opts and c13_descr.only_char_map_differs([d]):
+                fid = "C13-no-constraints-per-alphabet"
+            elif "-fwide-types" in var.opts and explicit_tagged_unsigned_member(all_texts.get(n, "")) and d["field"] in ("tags", "all") and doubled_first_tag(d):
+                # C13-explicit-tag-unsigned-member seen in the tables: the native build emits the EXPLICIT tag of an `unsigned` member twice (once in
+                # the member-specific descriptor, once in the member entry); INTEGER_t needs no such descriptor under -fwide-types
+                fid = "C13-explicit-tag-unsigned-member"
+            else:
+                return None
+            if fid not in ids:
+                ids.append(fid)
+        return ids or None
     for vs, ms in ((variants, mods), (wvariants, wmods), (fvariants, fmods)):
         tabs = descriptor_tie(run, vs, [m["name"] for m in ms if m.get("exe")], {m["name"]: m["text"] for m in ms}, dclassify, skel_inc, lib, model)
         if vs is fvariants:
             slots_tie(run, fvariants, fam_model, tabs, model)
+            # round 4: the layouts of every build, read off its member tables, walked by the extracted Layout / LayoutExt model
+            layout_tie(run, fvariants, [m for m in fam_model if m["name"].startswith("FI")], tabs, model, fencs, ext=False)
+            layout_tie(run, fvariants, fam_ext, tabs, model, fencs, ext=True)
     _t("descr tie done")
     # ------------------------------------------------------------ witness layers
     wis = wvariants[0].mods.get("WIS")
@@ -799,9 +976,18 @@ def main(tier):
           "extraction: ExtrOcamlBasic only; OCaml 4.13.1", "lib/modgen.py (generator, independent X.680 tagging), lib/widegen.py, lib/modbuild.py, lib/c13_util.py, lib/c13_families.py (directed families, hand-made DER), lib/c13_descr.py (parser of the dumped tables, Python erasure), harness/moddrv.c, harness/dumpdescr.c (translator, reads the public asn_TYPE_descriptor_t layout), ocaml/drv_c13.ml (integer-tree parser); gcc + ASan/UBSan",
           "values reach every build as DER through ber_decode; wide-layer values are those the baseline build's asn_random_fill produces",
           "builds made with -no-gen-OER / -no-gen-PER are linked with the full skeleton archive and are not asked for the disabled syntax"]
+    # one violation of every kind among the first ones (lib/vlib.py writes replay files for the first 20 only)
+    first, rest, seen_kinds = [], [], set()
+    for v in run.violations:
+        (rest if v["kind"] in seen_kinds else first).append(v)
+        seen_kinds.add(v["kind"])
+    run.violations[:] = first + rest
+    vkinds = {}
+    for v in run.violations:
+        vkinds[v["kind"]] = vkinds.get(v["kind"], 0) + 1
     return run.finish("proof", (nthm, ndis), trusted_base=tb,
                       checker_cmd="make -C /verif all && coqc -Q coq A1 coq/Props/Properties_C13.v",
-                      extra_cov={"family_values_not_encodable_anywhere": FAMILY_NOTES, "theorems": names, "coqchk": coqchk, "driver_notes": run.notes[:12], "modules": len(mods), "wide_modules": len(wmods), "option_sets": [" ".join(v.opts) for v in variants],
+                      extra_cov={"violation_kinds": vkinds, "family_values_not_encodable_anywhere": FAMILY_NOTES, "theorems": names, "coqchk": coqchk, "driver_notes": run.notes[:12], "modules": len(mods), "wide_modules": len(wmods), "option_sets": [" ".join(v.opts) for v in variants],
                                  "rule": "one case = one driver command line (value x syntax encoded by every build, or one distinct output decoded by every build); distinct command lines",
                                  "traces_validated_against_impl": run.cov["evaluations"]},
                       assumptions=["theorems cover the INTEGER/ENUMERATED native-vs-wide leaf (DER, BER decode, the conversions used by PER/OER), pointer vs inline member access for OER and DER over the first-milestone algebra (Rt/Layout.v), the descriptor erasure with its comparison and the emitter's slot decision (Rt/Options.v); REAL native/wide, UPER/XER on the structure, the wide algebra and the naming/include options are covered by the tie only",
